@@ -328,6 +328,11 @@ func runBatch(t *testing.T, p Property, job *Job) (res BatchResult) {
 			}
 			var sh []interface{}
 			for _, key := range sortedKeys(o.Stats) {
+				if strings.HasPrefix(key, "race_reports_") {
+					// whether the detector still holds the earlier access of a racing pair is its own affair (4 shadow cells
+					// per word, replaced at random): reports outside the property's scope are counted, not compared
+					continue
+				}
 				sh = append(sh, key, o.Stats[key])
 			}
 			cb, _ := json.Marshal(c)
